@@ -155,6 +155,17 @@ def minres_systems(quick, seed):
                 add({"n": n, "cols": "nn", "batch": [] if i % 2 else [2], "fam": fam, "kappa": kappa,
                      "shifts": [{"kind": "none"}, {"kind": "vec", "Q": 3}][i % 2], "value": None,
                      "pre": ["none", "jacobi"][i % 2], "mm": "callable", "set_tol": tol}, [3, None])
+    # (G) shift batches whose members differ in difficulty, in every ORDER (hardest first / last / in the middle): the
+    #     stopping rule and every per-shift quantity must treat all shift indices alike; systems that need more than 10
+    #     bodies for the hard shift while the easy shifts converge within 10; the residual predicate looks at every shift
+    for ni, n in enumerate([12, 20, 40] if quick else [12, 16, 20, 30, 40]):
+        for oi, order in enumerate(["asc", "desc", "mid"]):
+            i += 1
+            fam, kappa = [("geometric", 1e2), ("uniform", 1e2)][(ni + oi) % 2]
+            add({"n": n, "cols": "nn", "batch": [] if (ni + oi) % 3 else [2], "fam": fam, "kappa": kappa,
+                 "shifts": {"kind": "spread", "Q": 3 if oi != 1 or ni % 2 == 0 else 2, "order": order},
+                 "value": [None, 2.0, -1.0][(ni + 2 * oi) % 3], "pre": "none", "mm": ["callable", "tensor"][i % 2],
+                 "set_tol": [1e-8, None, 1e-10][(ni + oi) % 3]}, [4, None])
     # (C) eps clamp: a large eps makes clamp_min_ active as soon as the Krylov space is exhausted
     for n in [1, 2, 4]:
         for eps in [1e-3, 1e-25]:
@@ -242,6 +253,23 @@ def ciq_specs(quick, seed):
                 i += 1
                 add(op="dense", n=n, batch=[] if i % 2 else [2], t=2, fam=fam, kappa=kappa, scale=scale, call=call,
                     model=False, inverse=True, lhs=None, set_nq=None, set_tol=[None, 1e-10][i % 2])
+    # quadrature ACCURACY in the part of the quantifier where the 20-step Lanczos estimate of the extreme eigenvalues is
+    # exact (11 <= n <= 20) and the condition number is large enough for the position of the nodes to matter (1e3),
+    # on equispaced spectra, for which MINRES reaches a tight tolerance within its iteration cap: the result must agree
+    # with the dense K^(-1/2) R / K^(1/2) R / K^-1 R to the accuracy of the rule (c11_pred.ciq_bounds)
+    for ni, n in enumerate([16, 18, 20] if quick else [11, 12, 14, 16, 17, 18, 19, 20]):
+        for ci, (call, var) in enumerate([("direct", True), ("direct", False), ("sim", None), ("sim", 1)]):
+            i += 1
+            if quick and (ni + ci) % 2:
+                continue
+            spec = dict(op=["dense", "sum", "constmul"][(ni + ci) % 3], n=n, batch=[] if (ni + ci) % 4 else [2], t=[2, 1, 3][ci % 3],
+                        fam="uniform", kappa=1e3, scale=[1.0, 1e-3][ni % 2], call=call, model=False, inverse=True,
+                        set_nq=None, set_tol=[1e-10, 1e-12][ci % 2])
+            if call == "direct":
+                spec["inverse"] = var
+            else:
+                spec["lhs"] = var
+            add(**spec)
     # n = 1 and the 1 x 1 sampling special case neighbourhood
     for call in ["direct", "sim"]:
         i += 1
